@@ -275,6 +275,13 @@ const NOISE: &[&str] = &[
     "    3:4:int[] f -> b",
     "    0:0:o.T g -> c",
     "    1:1:int counter:5:6 -> a",
+    // an indented line without any blank after the indentation (the type scan ends at the line
+    // end), directly followed by member-like lines indented by 0 or 1 blanks
+    "    int\nint f -> c",
+    "    f->c\n f -> c",
+    "    1:2:run(int)\nint g -> d",
+    "    int\r\nint f -> c",
+    "    int\n\nint f -> c",
 ];
 
 fn source_file_line(rng: &mut Rng, cfg: &Cfg) -> String {
@@ -314,7 +321,7 @@ fn related_member_line(rng: &mut Rng, line: &str) -> Option<String> {
     }
     // half of the time the related entry is another method (same return type and arguments)
     let sig_owned: String;
-    let sig: &str = if rng.pct(50) {
+    let sig: &str = if rng.pct(35) {
         let open = sig.find('(')?;
         let start = sig[..open].rfind(|c| c == ' ' || c == '.').map_or(0, |i| i + 1);
         sig_owned = format!("{}{}{}", &sig[..start], rng.pick(ORIG_METHODS).replace('.', "_"), &sig[open..]);
@@ -323,7 +330,20 @@ fn related_member_line(rng: &mut Rng, line: &str) -> Option<String> {
         sig
     };
     let span = b.saturating_sub(a);
-    match rng.below(4) {
+    // one time in four the related entry sits under ANOTHER obfuscated name: equal original
+    // signatures and contiguous ranges do not make two entries one method
+    let other_name: String;
+    let name: &str = if rng.pct(25) {
+        other_name = rng.pick(&OBF_METHODS[..6]).to_string();
+        &other_name
+    } else {
+        name
+    };
+    match rng.below(5) {
+        4 => {
+            // the mirror image `b:a:` of `a:b:` (a different range unless a == b)
+            Some(format!("    {}:{}:{}{} -> {}", b, a, sig, tail, name))
+        }
         0 => {
             // contiguous continuation
             let (na, nb) = (b + 1, b + 1 + span);
